@@ -382,6 +382,36 @@ func c12Splice(c *Ctx, rule string, withMulti bool) {
 					}
 				}
 			}
+			idxOf := func(ev *Event) int {
+				for i := range p.Events {
+					if &p.Events[i] == ev {
+						return i
+					}
+				}
+				return -1
+			}
+			if ok {
+				// the new elements are written after the shift: written first, they are moved along (duplicated) and the
+				// element that stood at index is overwritten
+				shiftIdx := -1
+				for _, cp := range copies {
+					if i := idxOf(cp); i > growIdx && shiftIdx < 0 {
+						shiftIdx = i
+					}
+				}
+				for _, es := range elemStores {
+					if idxOf(es) < shiftIdx {
+						ok, why = false, "the value is written at index before the elements from index on are shifted out of the way: it is moved along with them and the element that stood there is lost"
+					}
+				}
+				if ins.multi {
+					for _, cp := range copies {
+						if i := idxOf(cp); i > growIdx && i != shiftIdx && i < shiftIdx {
+							ok, why = false, "the values are copied in before the shift"
+						}
+					}
+				}
+			}
 			if ok {
 				if ins.multi {
 					filled := false
